@@ -24,4 +24,10 @@ func init() {
 		c16Post(c)
 		c16Graphs(c)
 	})
+	Register("C14", func(c *RunCtx) {
+		c14Service(c)
+		c14WS(c)
+		c.Flush(false)
+		c14HTTP(c)
+	})
 }
